@@ -6,7 +6,7 @@ open Ebu.TypeName Driver
 def line (k : Nat) (s : Shape) : String :=
   let p := routeName .persisted s
   let pa := routeName .storedAfterReplay s
-  s!"shape {k} stored={p} eventtype={routeName .eventTypeFn s} replayed={b01 (routeName .replaySub s == p)} upfrom={b01 (routeName .upcastFrom s == p)} upto={routeName .upcastTo s} storedafter={pa} replayedafter={b01 (routeName .replaySub s == pa)} kept={p}"
+  s!"shape {k} stored={p} eventtype={routeName .eventTypeFn s} replayed={b01 (routeName .replaySub s == p)} upfrom={b01 (routeName .upcastFrom s == p)} upto={routeName .upcastTo s} storedafter={pa} replayedafter={b01 (routeName .replaySub s == pa)} kept={p} second={b01 (p == routeName .eventTypeFn s)}"
 
 def runCase (lines : Array String) : Array String :=
   lines.map fun l =>
